@@ -311,6 +311,15 @@ func (pw *PgWorld) RunSession(clientID string, script []Stmt) *SessionRun {
 		defer pdEnd.wr.stopYield()
 	}
 	run.Results = make([]StmtResult, len(script))
+	if n := int(pw.W.Plan.Sw("idlenth")); n > 1 {
+		// every n-th statement follows a silence longer than the proxy's network timeout
+		script = append([]Stmt{}, script...)
+		for i := range script {
+			if i%n == n-1 && script[i].IdleBefore == 0 {
+				script[i].IdleBefore = 61*time.Second + time.Duration(i)*time.Second
+			}
+		}
+	}
 	if pw.runRef != nil {
 		pw.runRef.toClient = run.ToClient
 	}
